@@ -112,12 +112,14 @@ Fixpoint distinct_keys (gs : list ginfo) : bool :=
   match gs with [] => true | g :: t => forallb (fun h => negb (same_key g h)) t && distinct_keys t end.
 
 (* "packet streams arriving in sequence order from the channel groups seen at start-up", one
-   frames-per-packet value per run, no uint32 wrap of sequence numbers *)
+   frames-per-packet value per run (a packet's payload length is a uint16, so it is below 65536),
+   no uint32 wrap of sequence numbers *)
 Definition valid_inputb (inp : input) : bool :=
   let all := concat (i_ticks inp) in
-  (0 <? i_fpp inp)
+  (0 <? i_fpp inp) && (i_fpp inp <? 65536)
   && match i_groups inp with [] => false | _ => true end
-  && forallb (fun gi => (0 <? gi_nchan gi) && (0 <=? sync0 gi) && (sync0 gi <=? last0 gi)) (i_groups inp)
+  && forallb (fun gi => (0 <? gi_nchan gi) && (0 <=? sync0 gi) && (sync0 gi <=? last0 gi)
+                        && (last0 gi <? 4294967296)) (i_groups inp)
   && distinct_keys (i_groups inp)
   && forallb (fun p => existsb (fun gi => belongs gi p) (i_groups inp)
                        && (zlen (p_data p) =? i_fpp inp * p_nchan p)
